@@ -370,7 +370,7 @@ class XsdWildcard(XsdComponent):
             else:
                 self.not_namespace = other.not_namespace.copy()
                 self.not_namespace.add('')
-                self.not_namespace.add(other.target_namespace)
+                self.not_namespace.add(self.target_namespace)
                 self.namespace.clear()
             return
 
@@ -382,9 +382,10 @@ class XsdWildcard(XsdComponent):
             self.namespace.clear()
             self.namespace.update(other.namespace)
         elif '##other' in self.namespace:
+            target_namespace = self.target_namespace
             self.namespace.clear()
             self.namespace.update(other.namespace)
-            self.namespace.discard(other.target_namespace)
+            self.namespace.discard(target_namespace)
             self.namespace.discard('')
         elif '##other' not in other.namespace:
             self.namespace.intersection_update(other.namespace)
